@@ -4,7 +4,7 @@ From Coq Require Import List NArith Arith.
 From DS Require Import Gen.Constants Base.Bytes Base.Word32 Model.Chunker
      Model.PChunker Base.Hash Base.Sched
      Proofs.RollProofs Proofs.ChunkerSpecProofs Proofs.ChunkerImplProofs Proofs.PChunkerMain Proofs.PChunkerOld Proofs.PChunkerLive
-     Model.PChunkerTrace Proofs.PChunkerTraceProofs.
+     Model.PChunkerTrace Proofs.PChunkerTraceProofs Model.Discriminator Proofs.DiscriminatorProofs.
 Import ListNotations.
 
 (* The incremental hash update of Chunker.Next (rotate, xor out the byte leaving the window
@@ -187,3 +187,19 @@ Theorem C02_pchunk_synthetic_null : forall (H : bytes -> id) min max d data, W <
   (slice data (c_end c) max = repeat 0%N max /\ c_end c + max <= length data) \/ Collision H.
 Proof. exact pchunk_synthetic_null. Qed.
 Print Assumptions C02_pchunk_synthetic_null.
+
+(* THE DISCRIMINATOR.  casync derives it from the average chunk size; the model is the exact
+   quotient avg*10^15 / (133237515*10^7 - 142888852*avg) (= avg / (1.33237515 - 1.42888852e-7*avg),
+   truncated), compared with discriminatorFromAvg on every run (all avg 48..4096, all KiB multiples
+   up to 8 MiB, random values below 9,000,000; exhaustively equal to the float64 evaluation on
+   1..9,000,000).  In that range it is a positive 32-bit number -- the premise 1 <= d of the
+   chunker theorems -- and monotone in avg. *)
+Theorem C02_disc_range : forall avg : N, (2 <= avg)%N -> (avg <= disc_avg_limit)%N ->
+  (1 <= disc_of_avg avg /\ disc_of_avg avg < 2 ^ 32)%N.
+Proof. exact disc_range. Qed.
+Print Assumptions C02_disc_range.
+
+Theorem C02_disc_monotone : forall a b : N, (a <= b)%N -> (b <= disc_avg_limit)%N ->
+  (disc_of_avg a <= disc_of_avg b)%N.
+Proof. exact disc_monotone. Qed.
+Print Assumptions C02_disc_monotone.
